@@ -1779,6 +1779,7 @@ def create_pressure_controls(net, from_junctions, to_junctions, controlled_junct
 
     index = _get_multiple_index_with_check(net, "press_control", index, len(from_junctions))
     _check_branches(net, from_junctions, to_junctions, "press_control")
+    _check_multiple_junction_elements(net, controlled_junctions)
 
     entries = {"name": name, "from_junction": from_junctions, "to_junction": to_junctions,
                "controlled_junction": controlled_junctions, "controlled_p_bar": controlled_p_bar,
